@@ -126,7 +126,7 @@ func runC06(run *mc.Run) int {
 	// forms (one representative line each), from the same sshd process and from two different ones
 	n += int64(c06Pairs(run, pids[0], pids[1]))
 	cov := mc.Coverage{Level: "exploration", Evaluations: int(n), Distinct: int(n) / (len(pids) + 1), Exhaustive: complete, Samples: sm.samples,
-		Rule:  "full cartesian product of the per-field value sets for each of the 22 sshd message forms (sshd's own format strings), each x every pid token, through the real ProcessSshdLogEntry, and once more (first pid token) as '<pid> <message>\\n' through a real FIFO into the real syslog ingester, each line twice in a row, plus every ordered pair of the 22 forms (same pid / two pids) through the FIFO; expected event assembled from the generating fields. distinct_nontrivial = distinct generated lines (all begin with a dispatch keyword and reach a regular expression)",
+		Rule:  "full cartesian product of the per-field value sets for each of the 22 sshd message forms (sshd's own format strings), each x every pid token, through the real ProcessSshdLogEntry, and once more (first pid token) as '<pid> <message>\\n' through a real FIFO into the real syslog ingester, each line twice in a row, plus every ordered pair of the 22 forms (same pid / two pids) and every pair (one of 8 other real sshd lines, form) through the FIFO; expected event assembled from the generating fields. distinct_nontrivial = distinct generated lines (all begin with a dispatch keyword and reach a regular expression)",
 		Extra: map[string]any{"lines_per_form": sm.forms, "pid_tokens": pids}}
 	cov.Assumptions = []string{"field value sets as listed in go/psshd/gen.go (chosen to hit every greedy/lazy/optional/anchored construct)"}
 	return run.Finish(cov)
@@ -188,6 +188,33 @@ func c06Pairs(run *mc.Run, pidA, pidB string) int {
 	}
 	close(jobs)
 	wg.Wait()
+	// lines sshd really prints that the daemon does not turn into events (multi-step authentication, connection
+	// bookkeeping, PAM): they yield nothing and leave nothing behind for the next line of the same process
+	others := otherSshdLines
+	var owg sync.WaitGroup
+	for _, o1 := range others {
+		for _, y := range reps {
+			owg.Add(1)
+			go func(o1 string, y Exp) {
+				defer owg.Done()
+				t0 := time.Now()
+				o := throughPipe(dir, []string{pidA + " " + o1 + "\n", pidA + " " + y.Line + "\n"})
+				o.T0, o.T1 = t0, time.Now()
+				atomic.AddInt64(&n, 2)
+				msg := ""
+				if len(o.Events) != 1 || o.Panic != nil {
+					msg = fmt.Sprintf("%d events (panic %v), want none for the first line and one for the second", len(o.Events), o.Panic)
+				} else if m := checkC06(y, pidA, o); m != "" {
+					msg = "second line: " + m
+				}
+				if msg != "" {
+					run.Violation("C06:pair:other-sshd-line->"+y.Form+":"+firstWords(msg, 2), map[string]any{"cases": []c07case{{Form: "other", Pid: pidA, Msg: o1, Line: pidA + " " + o1 + "\n"}, {Form: y.Form, Pid: pidA, Msg: y.Line, Line: pidA + " " + y.Line + "\n"}}},
+						fmt.Sprintf("line %q followed by line %q (same pid %s) through the pipe: %s", o1, y.Line, pidA, msg))
+				}
+			}(o1, y)
+		}
+	}
+	owg.Wait()
 	return int(n)
 }
 
@@ -1139,6 +1166,12 @@ func runC17(run *mc.Run) int {
 		names["Accepted password for root from 9.9.9.9 port 22 ssh2"] = true
 		names["Accepted publickey for root from 9.9.9.9 port 22 ssh2: RSA SHA256:abc"] = true
 		names["x Accepted password for root from 9.9.9.9 port 22 ssh2 y"] = true
+		// ... dressed up as a line of their own in other syslog layouts
+		names["sshd[99]: Accepted password for root from 9.9.9.9 port 22 ssh2"] = true
+		names["sshd-session[99]: Accepted publickey for root from 9.9.9.9 port 22 ssh2: RSA SHA256:abc"] = true
+		names["host sshd[99]: Accepted password for root from 9.9.9.9 port 22 ssh2"] = true
+		names["<38>Oct  4 09:00:00 host sshd[99]: Accepted password for root from 9.9.9.9 port 22 ssh2"] = true
+		names["99 Accepted password for root from 9.9.9.9 port 22 ssh2"] = true
 		for nm := range names {
 			for _, peer := range peers {
 				for _, port := range ports {
@@ -1281,4 +1314,16 @@ func coercedSubstring(line, v string) bool {
 		}
 	}
 	return false
+}
+
+// otherSshdLines: lines sshd really prints that the daemon does not turn into events.
+var otherSshdLines = []string{
+	"Partial publickey for a from 1.2.3.4 port 22 ssh2: ED25519-CERT SHA256:YI+caZKJCNaXgsD0NvRZ2fLaEeF46cEVyadru/SL76o ID remembered-key-id (serial 7) CA ED25519 SHA256:Pcs5TWfcOSKb7Rw/XyvHfUcaQzmw6HtLrjUoyXuzIj8",
+	"Postponed publickey for a from 1.2.3.4 port 22 ssh2 [preauth]",
+	"Connection from 1.2.3.4 port 22 on 10.0.0.1 port 22 rdomain \"\"",
+	"Connection closed by authenticating user a 1.2.3.4 port 22 [preauth]",
+	"Disconnected from user a 1.2.3.4 port 22",
+	"pam_unix(sshd:session): session opened for user a(uid=1000) by (uid=0)",
+	"Received disconnect from 1.2.3.4 port 22:11: disconnected by user",
+	"error: maximum authentication attempts exceeded for a from 1.2.3.4 port 22 ssh2 [preauth]",
 }
